@@ -14,6 +14,7 @@ import (
 	"path/filepath"
 	"strings"
 	"testing"
+	"time"
 
 	"pgregory.net/rapid"
 )
@@ -184,6 +185,107 @@ func TestVF_C12Archive(t *testing.T) {
 			}
 		}
 		c.eval(cs, hostile, labels...)
+		return msg
+	})
+}
+
+// ---------------------------------------------------------------------------------
+// C12 in the relay role: whatever the client sends as its action and the server as its configuration - well-formed lines whose
+// payload is not the expected object, or is one with hostile members - the relay process survives (its handshake runs in a
+// goroutine without a recover) and finds its way back to stand-by.
+
+type vfC12RelayCase struct {
+	Tmux bool   `json:"tmux"`
+	Win  bool   `json:"win_server"`
+	Act  string `json:"act"` // payload of the client's ACT line (coded like every protocol string)
+	Cfg  string `json:"cfg"` // payload of the server's CFG line
+	Raw  bool   `json:"raw"` // the CFG line is sent without the coding
+}
+
+var vfOddJSON = []string{"null", "[]", "{}", "5", "\"x\"", "true", "[null]", "{\"a\":null}", "", "nul", "{"}
+
+var vfActPayloads = []string{
+	`{"lang":"go","version":"1.1.8","confirm":true,"newline":"\n","protocol":4,"binary":true,"support_dir":true}`,
+	`{"lang":"go","version":"1.1.8","confirm":true,"newline":"\n","protocol":4,"binary":true,"support_dir":true}`,
+	`{"confirm":true}`, `{"confirm":true,"protocol":-1}`, `{"confirm":true,"protocol":999999999999}`, `{"confirm":true,"newline":null}`,
+	`{"confirm":true,"newline":"!\n","binary":null}`, `{"confirm":"yes"}`, `{"confirm":true,"version":null,"lang":5}`, `{"confirm":true,"tunnel":true}`,
+}
+
+var vfCfgPayloads = []string{
+	`{"lang":"go","bufsize":10485760,"timeout":20}`, `{"lang":"go","bufsize":10485760,"timeout":20,"binary":true,"escape_chars":[["î","îî"],["~","î1"]]}`,
+	`{"bufsize":-1}`, `{"bufsize":0,"timeout":-5}`, `{"bufsize":"10M"}`, `{"timeout":"x"}`, `{"escape_chars":null,"binary":true}`, `{"escape_chars":[["a"]],"binary":true}`,
+	`{"escape_chars":[[5,6]],"binary":true}`, `{"escape_chars":"x"}`, `{"tmux_pane_width":-5}`, `{"tmux_pane_width":99999999999}`, `{"tmux_output_junk":"yes"}`, `{"protocol":null}`,
+	`{"protocol":-3,"newline":5}`, `{"compress":"maybe"}`, `{"fork":true,"quiet":null}`,
+}
+
+func vfC12RelayRun(cs vfC12RelayCase) string {
+	vfCurCase("TestVF_C12Relay", cs)
+	g := newVfRelayRig(cs.Tmux, 80)
+	defer g.close()
+	id := "1234567890100"
+	if cs.Win {
+		id = "1234567890110"
+	}
+	g.srvOut.feed([]byte("\x1b7\x07::TRZSZ:TRANSFER:R:1.1.8:" + id + ":0\r\n"))
+	if _, ok := vfWaitFor(g.cliOut, 0, "::TRZSZ:TRANSFER", 3*time.Second); !ok {
+		return "" // the trigger did not get through in time: nothing to judge
+	}
+	nl := "\n"
+	if cs.Win {
+		nl = "!\n"
+	}
+	g.cliIn.feed(vfEncodeLine("ACT", []byte(cs.Act), "\n"))
+	time.Sleep(15 * time.Millisecond)
+	if cs.Raw {
+		g.srvOut.feed([]byte("#CFG:" + cs.Cfg + nl))
+	} else {
+		g.srvOut.feed(vfEncodeLine("CFG", []byte(cs.Cfg), nl))
+	}
+	time.Sleep(40 * time.Millisecond)
+	// whatever state this left: both ends give up
+	g.cliIn.feed(vfEncodeLine("fail", []byte("giving up"), "\n"))
+	g.srvOut.feed(vfEncodeLine("FAIL", []byte("giving up"), nl))
+	time.Sleep(10 * time.Millisecond)
+	return ""
+}
+
+func TestVF_C12Relay(t *testing.T) {
+	c := vfNewCollector("C12", "TestVF_C12Relay")
+	vfCheck(t, c, func(rt *rapid.T) vfC12RelayCase {
+		var cs vfC12RelayCase
+		cs.Tmux = rapid.IntRange(0, 3).Draw(rt, "tmux") == 0
+		cs.Win = rapid.IntRange(0, 5).Draw(rt, "win") == 0
+		switch rapid.IntRange(0, 3).Draw(rt, "actkind") {
+		case 0:
+			cs.Act = rapid.SampledFrom(vfOddJSON).Draw(rt, "act_odd")
+		default:
+			cs.Act = rapid.SampledFrom(vfActPayloads).Draw(rt, "act")
+		}
+		switch rapid.IntRange(0, 3).Draw(rt, "cfgkind") {
+		case 0:
+			cs.Cfg = rapid.SampledFrom(vfOddJSON).Draw(rt, "cfg_odd")
+		case 1:
+			cs.Cfg = string(vfGenHostile(rt, "cfg_h"))
+			cs.Raw = rapid.Bool().Draw(rt, "raw")
+		default:
+			cs.Cfg = rapid.SampledFrom(vfCfgPayloads).Draw(rt, "cfg")
+		}
+		return cs
+	}, func(cs vfC12RelayCase) string {
+		msg := vfGuardTimed(c, cs, func() string { return vfC12RelayRun(cs) })
+		odd := false
+		labels := []string{"relay_handshake_payloads"}
+		for _, o := range vfOddJSON {
+			if cs.Act == o {
+				odd = true
+				labels = append(labels, "act_not_the_expected_object")
+			}
+			if cs.Cfg == o {
+				odd = true
+				labels = append(labels, "cfg_not_the_expected_object")
+			}
+		}
+		c.eval(cs, odd || cs.Raw || strings.Contains(cs.Cfg, "null") || strings.Contains(cs.Cfg, "-"), labels...)
 		return msg
 	})
 }
